@@ -84,7 +84,10 @@ func (s *OpenAPI3Exporter) GenerateOpenAPI3(app *syslwrapper.App) (*openapi3.T, 
 		Description: app.Attributes["env.1.description"],
 		Variables:   map[string]*openapi3.ServerVariable{},
 	}
-	spec.AddServer(server)
+	if server.URL != "" {
+		// a server object without a url is not valid OpenAPI
+		spec.AddServer(server)
+	}
 	components := openapi3.NewComponents()
 	spec.Components = &components
 	spec.Components.Schemas = make(map[string]*openapi3.SchemaRef)
